@@ -370,17 +370,17 @@ Proof.
   destruct (module_status_kk st) as [m om] eqn:E. destruct (module_status_kk_ok _ _ _ HI E) as [Hm Hom]. so.
 Qed.
 
-Lemma boot_ok : forall fs d st o sy,
-  (forall e, In e fs -> hex_ok e) -> boot fs d = (st, o, sy) -> Inv st /\ ok_outs o.
+Lemma boot_ok : forall fs d co st o sy,
+  (forall e, In e fs -> hex_ok e) -> boot fs d co = (st, o, sy) -> Inv st /\ ok_outs o.
 Proof.
-  intros fs d st o sy Hfs H. unfold boot in H.
+  intros fs d co st o sy Hfs H. unfold boot in H.
   destruct (startup_event "Started proxy listener, ready to accept request") as [lm lo] eqn:Es.
   destruct (startup_event_ok _ _ _ Es) as [Hlm Hlo].
   match type of H with context [set_status ?s0 ?m true] => destruct (set_status s0 m true) as [st1 o1] eqn:E;
     assert (HI0 : Inv s0) by (unfold Inv; simpl; split; [apply body_tainted_pub; reflexivity | split; [intros; discriminate | auto]]) end.
   inversion H; subst; clear H.
   pose proof (set_status_ok _ _ _ _ _ HI0 E) as X; feed X; destruct X as (A & B & _).
-  split; auto. so.
+  split; auto. destruct co; so.
 Qed.
 
 End Envelope.
@@ -407,12 +407,12 @@ Qed.
 (* ---------------------------------------------------------------------------------------- *)
 (* every step, every history                                                                *)
 (* ---------------------------------------------------------------------------------------- *)
-Lemma step_ok : forall v Nl Ml st o st1 outs sy,
-  Inv v Nl Ml st -> step v st o = (st1, outs, sy) ->
+Lemma step_ok : forall v co Nl Ml st o st1 outs sy,
+  Inv v Nl Ml st -> step v co st o = (st1, outs, sy) ->
   Inv v (Nl ++ nonhex_keys_op o) (Ml ++ malformed_keys_op o) st1
   /\ ok_outs v (Nl ++ nonhex_keys_op o) (Ml ++ malformed_keys_op o) outs.
 Proof.
-  intros v Nl Ml st o st1 outs sy HI H.
+  intros v co Nl Ml st o st1 outs sy HI H.
   assert (HI' : Inv v (Nl ++ nonhex_keys_op o) (Ml ++ malformed_keys_op o) st)
     by (eapply Inv_mono; [| |eassumption]; apply incl_appl, incl_refl).
   destruct o as [s kr ar| | |n| |]; simpl in H.
@@ -425,31 +425,34 @@ Proof.
   - inversion H; subst; split; auto. apply status_tick_ok; auto.
 Qed.
 
-Lemma run_from_ok : forall v h Nl Ml st outs sy,
-  Inv v Nl Ml st -> run_from v st h = (outs, sy) ->
+Lemma run_from_ok : forall v co h Nl Ml st outs sy,
+  Inv v Nl Ml st -> run_from v co st h = (outs, sy) ->
   ok_outs v (Nl ++ nonhex_keys h) (Ml ++ malformed_keys h) outs.
 Proof.
-  induction h as [|o h IH]; intros Nl Ml st outs sy HI H; simpl in H.
+  intros v co. induction h as [|o h IH]; intros Nl Ml st outs sy HI H; simpl in H.
   - inversion H; constructor.
-  - destruct (step v st o) as [[st1 o1] s1] eqn:Es.
-    destruct (run_from v st1 h) as [o2 s2] eqn:Er. inversion H; subst; clear H.
-    destruct (step_ok _ _ _ _ _ _ _ _ HI Es) as [HI1 Ho1].
+  - destruct (step v co st o) as [[st1 o1] s1] eqn:Es.
+    destruct (run_from v co st1 h) as [o2 s2] eqn:Er. inversion H; subst; clear H.
+    destruct (step_ok _ _ _ _ _ _ _ _ _ HI Es) as [HI1 Ho1].
     specialize (IH _ _ _ _ _ HI1 Er).
     unfold nonhex_keys, malformed_keys in *; simpl. rewrite !app_assoc.
     apply Forall_app; split; auto.
     eapply ok_outs_mono; [| |eassumption]; apply incl_appl, incl_refl.
 Qed.
 
-Lemma run_ok : forall v h, ok_outs v (nonhex_keys h) (malformed_keys h) (run v h).
+Lemma run_env_ok : forall v predir co h, ok_outs v (nonhex_keys h) (malformed_keys h) (run_env v predir co h).
 Proof.
-  intros v h. unfold run, run_all.
-  destruct (boot [] false) as [[st0 o0] s0] eqn:Eb.
-  destruct (run_from v st0 h) as [o s] eqn:Er. simpl.
-  destruct (boot_ok v [] [] [] false st0 o0 s0 (fun e H => match H with end) Eb) as [HI Ho].
+  intros v predir co h. unfold run_env, run_all.
+  destruct (boot [] predir co) as [[st0 o0] s0] eqn:Eb.
+  destruct (run_from v co st0 h) as [o s] eqn:Er. simpl.
+  destruct (boot_ok v [] [] [] predir co st0 o0 s0 (fun e H => match H with end) Eb) as [HI Ho].
   apply Forall_app; split.
   - eapply ok_outs_mono; [| |eassumption]; intros x Hx; inversion Hx.
-  - exact (run_from_ok v h [] [] st0 o s HI Er).
+  - exact (run_from_ok v co h [] [] st0 o s HI Er).
 Qed.
+
+Lemma run_ok : forall v h, ok_outs v (nonhex_keys h) (malformed_keys h) (run v h).
+Proof. intros; apply run_env_ok. Qed.
 
 (* the exact leak envelope *)
 Theorem leak_envelope : forall v h s t k,
@@ -570,8 +573,8 @@ Proof. vm_compute. split; reflexivity. Qed.
 (* ---------------------------------------------------------------------------------------- *)
 (* the key directory is restricted before anything is created in it                         *)
 (* ---------------------------------------------------------------------------------------- *)
-Lemma creates_restricted_app : forall a b d,
-  creates_restricted d (a ++ b) = creates_restricted d a && creates_restricted (fold_left sys_step a d) b.
+Lemma creates_restricted_app : forall co a b d,
+  creates_restricted co d (a ++ b) = creates_restricted co d a && creates_restricted co (fold_left sys_step a d) b.
 Proof.
   induction a as [|e a IH]; intros b d; simpl; auto.
   destruct e; simpl; rewrite ?IH; auto.
@@ -582,31 +585,33 @@ Lemma fold_sys_app : forall a b d, fold_left sys_step (a ++ b) d = fold_left sys
 Proof. intros; apply fold_left_app. Qed.
 
 (* the syscalls of one step keep a restricted directory restricted, and create only in a restricted one *)
-Definition keeps (tr : list sys) : Prop :=
-  forall d, restricted d = true -> creates_restricted d tr = true /\ restricted (fold_left sys_step tr d) = true.
+Definition keeps (co : bool) (tr : list sys) : Prop :=
+  forall d, restricted_in co d = true ->
+    creates_restricted co d tr = true /\ restricted_in co (fold_left sys_step tr d) = true.
 
-Lemma keeps_nil : keeps [].
-Proof. intros d H; simpl; auto. Qed.
+Lemma keeps_nil : forall co, keeps co [].
+Proof. intros co d H; simpl; auto. Qed.
 
-Lemma keeps_creates : forall cs, Forall (fun e => exists c, e = Create c) cs -> keeps cs.
+Lemma keeps_creates : forall co cs, Forall (fun e => exists c, e = Create c) cs -> keeps co cs.
 Proof.
-  induction 1 as [|e cs [c0 ->] _ IH]; intros d Hd; simpl; [auto|].
+  intros co. induction 1 as [|e cs [c0 ->] _ IH]; intros d Hd; simpl; [auto|].
   replace (sys_step d (Create c0)) with d by (destruct d as [[? ?]|]; reflexivity).
   destruct (IH d Hd) as [A B]. rewrite Hd, A. split; auto.
 Qed.
 
-Lemma boot_trace : forall fs dir st o sy, boot fs dir = (st, o, sy) ->
-  sy = (if dir then [] else [Mkdir]) ++ [Chown 0 0; Chmod 448].
+Lemma boot_trace : forall fs dir co st o sy, boot fs dir co = (st, o, sy) ->
+  sy = (if dir then [] else [Mkdir]) ++ (if co then [Chown 0 0] else []) ++ [Chmod 448].
 Proof.
-  intros fs dir st o sy H. unfold boot in H.
+  intros fs dir co st o sy H. unfold boot in H.
   destruct (startup_event "Started proxy listener, ready to accept request").
   match type of H with context [set_status ?s0 ?m true] => destruct (set_status s0 m true) end.
   inversion H; subst. reflexivity.
 Qed.
 
-Lemma keeps_boot : forall dir : bool, keeps ((if dir then @nil sys else [Mkdir]) ++ [Chown 0 0; Chmod 448]).
+Lemma keeps_boot : forall (dir co : bool),
+  keeps co ((if dir then @nil sys else [Mkdir]) ++ (if co then [Chown 0 0] else []) ++ [Chmod 448]).
 Proof.
-  intros dir d Hd. destruct d as [[c0 m0]|]; [|discriminate]. destruct dir; simpl; auto.
+  intros dir co d Hd. destruct co; destruct d as [[c0 m0]|]; try discriminate; destruct dir; simpl; auto.
 Qed.
 
 Lemma acquire_block_trace : forall v st kr ar st1 o sy go, acquire_block v st kr ar = (st1, o, sy, go) ->
@@ -660,11 +665,11 @@ Proof.
   - destruct (wake stc). inversion H; subst; auto.
 Qed.
 
-Lemma step_keeps : forall v st o st1 outs sy, step v st o = (st1, outs, sy) -> keeps sy.
+Lemma step_keeps : forall v co st o st1 outs sy, step v co st o = (st1, outs, sy) -> keeps co sy.
 Proof.
-  intros v st o st1 outs sy H. destruct o as [s kr ar| | |n| |]; simpl in H.
+  intros v co st o st1 outs sy H. destruct o as [s kr ar| | |n| |]; simpl in H.
   - apply keeps_creates. eapply poll_trace; eauto.
-  - rewrite (boot_trace _ _ _ _ _ H). apply keeps_boot.
+  - rewrite (boot_trace _ _ _ _ _ _ H). apply keeps_boot.
   - inversion H; subst; apply keeps_nil.
   - destruct (provision_query st n); inversion H; subst; apply keeps_nil.
   - unfold provision_timeup in H. destruct (failed_state_message st). inversion H; subst.
@@ -672,44 +677,60 @@ Proof.
   - inversion H; subst; apply keeps_nil.
 Qed.
 
-Lemma keeps_app : forall a b, keeps a -> keeps b -> keeps (a ++ b).
+Lemma keeps_app : forall co a b, keeps co a -> keeps co b -> keeps co (a ++ b).
 Proof.
-  intros a b Ha Hb d Hd. destruct (Ha d Hd) as [A1 A2]. destruct (Hb _ A2) as [B1 B2].
+  intros co a b Ha Hb d Hd. destruct (Ha d Hd) as [A1 A2]. destruct (Hb _ A2) as [B1 B2].
   rewrite creates_restricted_app, fold_sys_app, A1, B1. auto.
 Qed.
 
-Lemma run_from_keeps : forall v h st outs sy, run_from v st h = (outs, sy) -> keeps sy.
+Lemma run_from_keeps : forall v co h st outs sy, run_from v co st h = (outs, sy) -> keeps co sy.
 Proof.
-  induction h as [|o h IH]; intros st outs sy H; simpl in H.
+  intros v co. induction h as [|o h IH]; intros st outs sy H; simpl in H.
   - inversion H; apply keeps_nil.
-  - destruct (step v st o) as [[st1 o1] s1] eqn:Es. destruct (run_from v st1 h) as [o2 s2] eqn:Er.
+  - destruct (step v co st o) as [[st1 o1] s1] eqn:Es. destruct (run_from v co st1 h) as [o2 s2] eqn:Er.
     inversion H; subst. apply keeps_app; [eapply step_keeps; eauto | eapply IH; eauto].
 Qed.
 
-Theorem creates_in_restricted_dir : forall v predir h,
-  creates_restricted (init_dir predir) (sys_trace v predir h) = true.
+(* in every environment: whatever can be demanded there (mode always, owner when chown can succeed) holds
+   at every creation inside the key directory *)
+Theorem creates_in_restricted_dir : forall v predir co h,
+  creates_restricted co (init_dir predir) (sys_trace v predir co h) = true.
 Proof.
-  intros v predir h. unfold sys_trace, run_all.
-  destruct (boot [] predir) as [[st0 o0] s0] eqn:Eb. destruct (run_from v st0 h) as [o s] eqn:Er. simpl.
-  rewrite (boot_trace _ _ _ _ _ Eb). rewrite creates_restricted_app.
-  destruct (run_from_keeps _ _ _ _ _ Er (Some (true, 448%N)) eq_refl) as [A _].
-  destruct predir; simpl; exact A.
+  intros v predir co h. unfold sys_trace, run_all.
+  destruct (boot [] predir co) as [[st0 o0] s0] eqn:Eb. destruct (run_from v co st0 h) as [o s] eqn:Er. simpl.
+  rewrite (boot_trace _ _ _ _ _ _ Eb). rewrite creates_restricted_app.
+  pose proof (run_from_keeps _ _ _ _ _ _ Er) as K.
+  destruct co; destruct predir; simpl.
+  - exact (proj1 (K (Some (true, 448%N)) eq_refl)).
+  - exact (proj1 (K (Some (true, 448%N)) eq_refl)).
+  - exact (proj1 (K (Some (false, 448%N)) eq_refl)).
+  - exact (proj1 (K (Some (false, 448%N)) eq_refl)).
 Qed.
 
-(* Prop form: at every creation inside the key directory, the directory has been chown'ed to
-   root:root and chmod'ed to 0o700 (and nothing undid that) *)
-Theorem dir_restricted_at_create : forall v predir h pre c post,
-  sys_trace v predir h = pre ++ Create c :: post -> restricted (dir_after predir pre) = true.
+Lemma at_create : forall v predir co h pre c post,
+  sys_trace v predir co h = pre ++ Create c :: post -> restricted_in co (dir_after predir pre) = true.
 Proof.
-  intros v predir h pre c post H. pose proof (creates_in_restricted_dir v predir h) as R. rewrite H in R.
+  intros v predir co h pre c post H. pose proof (creates_in_restricted_dir v predir co h) as R. rewrite H in R.
   rewrite creates_restricted_app in R. apply andb_true_iff in R. destruct R as [_ R].
   simpl in R. apply andb_true_iff in R. destruct R as [R _]. exact R.
 Qed.
 
-Definition mode_is_700 (d : dirstate) : bool := match d with Some (_, m) => N.eqb m 448 | None => false end.
+(* Prop forms.  Whatever the environment: the mode is 0o700 at every creation inside the key directory *)
+Theorem dir_mode_restricted_at_create : forall v predir co h pre c post,
+  sys_trace v predir co h = pre ++ Create c :: post -> mode_restricted (dir_after predir pre) = true.
+Proof.
+  intros v predir co h pre c post H. pose proof (at_create v predir co h pre c post H) as R.
+  destruct co; simpl in R; auto.
+  destruct (dir_after predir pre) as [[c0 m0]|]; simpl in *; [destruct c0; auto; discriminate | discriminate].
+Qed.
 
-Lemma mode_700_needs_chmod : forall tr d, mode_is_700 (fold_left sys_step tr d) = true ->
-  mode_is_700 d = true \/ In (Chmod 448) tr.
+(* where chown can succeed: root:root and 0o700 (and nothing undid that) *)
+Theorem dir_restricted_at_create : forall v predir h pre c post,
+  sys_trace v predir true h = pre ++ Create c :: post -> restricted (dir_after predir pre) = true.
+Proof. intros v predir h pre c post H. exact (at_create v predir true h pre c post H). Qed.
+
+Lemma mode_700_needs_chmod : forall tr d, mode_restricted (fold_left sys_step tr d) = true ->
+  mode_restricted d = true \/ In (Chmod 448) tr.
 Proof.
   induction tr as [|e tr IH]; intros d H; simpl in *; auto.
   destruct (IH _ H) as [A|A]; [|right; right; exact A].
@@ -735,19 +756,20 @@ Proof.
   - left. destruct d as [[? ?]|]; exact A.
 Qed.
 
-(* DESIGN form: the chmod 0o700 (and the chown root:root) of the key directory precede the first
-   creation in it -- also when the directory existed, unrestricted, before the agent first ran *)
-Theorem dir_restricted_first : forall v predir h pre c post,
-  sys_trace v predir h = pre ++ Create c :: post -> In (Chmod 448) pre /\ In (Chown 0 0) pre.
+(* DESIGN form: the chmod 0o700 of the key directory precedes the first creation in it -- in every
+   environment, also when the directory existed, unrestricted, before the agent first ran; and so does the
+   chown root:root wherever it can succeed *)
+Theorem dir_restricted_first : forall v predir co h pre c post,
+  sys_trace v predir co h = pre ++ Create c :: post ->
+  In (Chmod 448) pre /\ (co = true -> In (Chown 0 0) pre).
 Proof.
-  intros v predir h pre c post H. pose proof (dir_restricted_at_create v predir h pre c post H) as R.
-  unfold dir_after in R.
-  assert (M : mode_is_700 (fold_left sys_step pre (init_dir predir)) = true
-              /\ (match fold_left sys_step pre (init_dir predir) with Some (true, _) => true | _ => false end) = true).
-  { destruct (fold_left sys_step pre (init_dir predir)) as [[c0 m0]|]; simpl in *; [destruct c0; auto; discriminate | discriminate]. }
-  destruct M as [M1 M2]. split.
-  - destruct (mode_700_needs_chmod _ _ M1) as [A|A]; [destruct predir; discriminate | exact A].
-  - destruct (owner_needs_chown _ _ M2) as [A|A]; [destruct predir; discriminate | exact A].
+  intros v predir co h pre c post H. split.
+  - pose proof (dir_mode_restricted_at_create v predir co h pre c post H) as M. unfold dir_after in M.
+    destruct (mode_700_needs_chmod _ _ M) as [A|A]; [destruct predir; discriminate | exact A].
+  - intros ->. pose proof (dir_restricted_at_create v predir h pre c post H) as R. unfold dir_after in R.
+    assert (M2 : (match fold_left sys_step pre (init_dir predir) with Some (true, _) => true | _ => false end) = true).
+    { destruct (fold_left sys_step pre (init_dir predir)) as [[c0 m0]|]; simpl in *; [destruct c0; auto; discriminate | discriminate]. }
+    destruct (owner_needs_chown _ _ M2) as [A|A]; [destruct predir; discriminate | exact A].
 Qed.
 
 (* non-vacuity *)
@@ -757,10 +779,12 @@ Lemma nonvacuous_examples :
                        Poll (SOk false (Some 2%N) 1) KErr AOk; Restart; Poll (SOk true (Some 2%N) 1) KErr AOk; ClientRequest;
                        StatusTick; ProvisionQuery true; ProvisionTimeup])
     = [(KeyFile, [1%N; 2%N])]
-  /\ map sys_code (sys_trace unfixed false [Poll (SOk true None 1) (KOk 1 true) AOk; ProvisionTimeup; Restart; Poll (SOk true None 1) (KOk 2 true) AOk])
+  /\ map sys_code (sys_trace unfixed false true [Poll (SOk true None 1) (KOk 1 true) AOk; ProvisionTimeup; Restart; Poll (SOk true None 1) (KOk 2 true) AOk])
     = [(0, 0); (1, 0); (2, 448); (3, 0); (3, 1); (3, 1); (1, 0); (2, 448); (3, 0)]%N
-  /\ map sys_code (sys_trace unfixed true [Poll (SOk true None 1) (KOk 1 true) AOk])
+  /\ map sys_code (sys_trace unfixed true true [Poll (SOk true None 1) (KOk 1 true) AOk])
     = [(1, 0); (2, 448); (3, 0)]%N
+  /\ map sys_code (sys_trace current true false [Poll (SOk true None 1) (KOk 1 true) AOk])
+    = [(2, 448); (3, 0)]%N
   /\ vector (run repaired witness_not_hex) = []
   /\ vector (run repaired witness_body_malformed) = [].
 Proof. vm_compute. repeat split. Qed.
